@@ -42,7 +42,7 @@ var rules = []*Rule{
 	{ID: "R22", Title: "SEGMENT-TYPESTATE: no use of a segment after its files were removed", Props: []string{"C12", "C01"}, Run: ruleR22},
 	{ID: "R23", Title: "MULTI-DRIVER ACCOUNTING: a round's deletions are reported", Props: []string{"C12"}, Run: ruleR23},
 	{ID: "R17", Title: "OFFSET-ASSIGNMENT", Props: []string{"C02", "C01"}, Run: func(p *Prog) []Ob {
-		return append(append(ruleR17(p), p.tailSurvivedObligations()...), p.rolloverFromNonEmpty()...)
+		return append(append(append(ruleR17(p), p.tailSurvivedObligations()...), p.rolloverFromNonEmpty()...), p.nextOffsetFromTheHead()...)
 	}},
 	{ID: "R5", Title: "INUSE: the unload refcount protocol", Props: []string{"C08", "C19"}, Run: ruleR5},
 	{ID: "R18", Title: "SNAPSHOT-REVALIDATION", Props: []string{"C08", "C12", "C03", "C15"}, Run: func(p *Prog) []Ob {
